@@ -16,6 +16,7 @@ package http
 import (
 	"bytes"
 	"context"
+	"io"
 	"io/ioutil"
 	"math/rand"
 	"net"
@@ -138,7 +139,12 @@ func (h *Handler) ServeHTTP(response http.ResponseWriter, request *http.Request)
 			return
 		}
 	}
-	data, err := readAll(request.Body, request.ContentLength)
+	body := io.Reader(request.Body)
+	if request.ContentLength < 0 && request.Body != nil {
+		// no declared length: never read more than one byte over the limit
+		body = io.LimitReader(request.Body, int64(h.Service.MaxRequestLength)+1)
+	}
+	data, err := readAll(body, request.ContentLength)
 	if err != nil {
 		h.onError(response, request, err)
 		_ = request.Body.Close()
@@ -147,6 +153,10 @@ func (h *Handler) ServeHTTP(response http.ResponseWriter, request *http.Request)
 	}
 	if err = request.Body.Close(); err != nil {
 		h.onError(response, request, err)
+	}
+	if len(data) > h.Service.MaxRequestLength {
+		response.WriteHeader(http.StatusRequestEntityTooLarge)
+		return
 	}
 	serviceContext := h.getServiceContext(response, request)
 	ctx := core.WithContext(request.Context(), serviceContext)
@@ -280,6 +290,10 @@ func (h *Handler) ServeFastHTTP(ctx *fasthttp.RequestCtx) {
 	}
 	serviceContext := h.getFastHTTPServiceContext(ctx)
 	body := ctx.Request.Body()
+	if len(body) > h.Service.MaxRequestLength {
+		ctx.SetStatusCode(fasthttp.StatusRequestEntityTooLarge)
+		return
+	}
 	request := make([]byte, len(body))
 	copy(request, body)
 	result, err := h.Service.Handle(core.WithContext(context.Background(), serviceContext), request)
